@@ -6,7 +6,11 @@ usual/cbtree.c and links strpool.c, mdict.c, mbuf.c, cxalloc.c) on the same op l
 node structure of the tree as internal projection."""
 import os
 import itertools
+import sys
 import vf
+
+sys.path.insert(0, os.path.join(vf.VERIF, "extract"))
+import c2lean  # noqa: E402
 
 PID = "C06"
 PROP_MODULES = ["UsualProofs.Props.C06"]
@@ -16,7 +20,8 @@ REPO_SRCS = ["repo:usual/strpool.c", "repo:usual/mdict.c", "repo:usual/mbuf.c",
 
 def build(ck):
     ck.forbid_scan()
-    ck.build_proofs(PROP_MODULES, driver="drv_c06")
+    # T-tie: get_bit / find_crit_bit / fls re-translated into lean/Usual/Gen/C06T.lean, bridge re-checked
+    ck.build_proofs(PROP_MODULES + c2lean.ttie(ck, vf, PID), driver="drv_c06")
     h = ck.cc(os.path.join(ck.bdir, "h"), [os.path.join(vf.HARNESS, PID, "h.c")] + REPO_SRCS)
     return [h], [ck.driver_path("drv_c06")]
 
